@@ -209,6 +209,18 @@ class VRec(V):
         return f"VRec({self.ty.name},{self.fields})"
 
 
+class VSet(V):
+    """set(<symbolic list of ints>): only membership (`in`) is modelled; `lst` is the sequence it was built from.
+    Every other operation (len, iteration, ==, indexing) is outside the verified subset and stays Unsupported."""
+
+    def __init__(self, lst: "VList"):
+        self.lst = lst
+        self.ty = SeqOf(lst.elem)
+
+    def __repr__(self):
+        return f"VSet({self.lst})"
+
+
 class VConst(V):
     """A compile-time Python constant that has no scalar SMT form (set, dict, module, class...)."""
 
@@ -254,11 +266,31 @@ class VExc(V):
         return f"VExc({self.cls})"
 
 
+class VRange(V):
+    """range(lo, hi) with symbolic bounds (step 1). Only `for <name> in range(..)` under a loop invariant is modelled
+    (Exec._for_range); every other use stays Unsupported."""
+
+    def __init__(self, lo, hi):
+        self.lo = lo  # z3 Int terms
+        self.hi = hi
+        self.ty = ConstT
+
+    def __repr__(self):
+        return f"VRange({self.lo},{self.hi})"
+
+
 # ---------------------------------------------------------------------------------------------
 # types
 # ---------------------------------------------------------------------------------------------
 class Ty:
     name = "?"
+    native_gen = None  # optional: fn(gen) -> native value, for the CPython cross-check (type invariants of fields)
+
+    def with_gen(self, fn):
+        import copy
+        t = copy.copy(self)
+        t.native_gen = fn
+        return t
 
     def sort(self):
         raise Unsupported(f"type {self.name} has no SMT sort")
@@ -388,9 +420,9 @@ class Opt(Ty):
         self.name = f"Opt({inner.name})"
 
     def sort(self):
-        key = ("opt", self.inner.name)
+        key = _tykey(self)
         if key not in _sort_cache:
-            m = _mangle(self.inner.name)
+            m = _unique_mangle(self.inner.name)
             d = z3.Datatype(f"Opt_{m}")
             d.declare(f"none_{m}")
             d.declare(f"some_{m}", (f"the_{m}", self.inner.sort()))
@@ -442,6 +474,10 @@ class SeqOf(Ty):
             v = coerce(v, self)
         if isinstance(v, VTuple):
             v = VList(self.elem, items=list(v.items))
+        if isinstance(v, VSet):
+            v = v.lst  # a field/parameter DECLARED as a sequence holds a set: the contract author's membership-only view
+        if isinstance(v, VConst) and isinstance(v.py, (set, frozenset)) and all(type(x) is int for x in v.py):
+            v = VList(self.elem, items=[lift(x) for x in sorted(v.py)])  # same membership-only view of a constant set
         if isinstance(v, VConst) and isinstance(v.py, (tuple, list)):
             from .ty import lift
             v = VList(self.elem, items=[lift(x) for x in v.py])
@@ -473,9 +509,9 @@ class TupleOf(Ty):
         self.name = "Tuple(" + ",".join(e.name for e in elems) + ")"
 
     def sort(self):
-        key = ("tuple", self.name)
+        key = _tykey(self)
         if key not in _sort_cache:
-            m = _mangle(self.name)
+            m = _unique_mangle(self.name)
             d = z3.Datatype(f"Tup_{m}")
             d.declare(f"mk_{m}", *[(f"f{i}_{m}", e.sort()) for i, e in enumerate(self.elems)])
             _sort_cache[key] = d.create()
@@ -524,11 +560,14 @@ class Rec(Ty):
         return Rec(self.name, pycls=self.pycls, as_dict=self.as_dict, cls=cls, closed=self.closed, optkeys=self.optkeys, **self.fields)
 
     def sort(self):
-        key = ("rec", self.name, tuple(sorted((k, t.name) for k, t in self.fields.items())))
+        # one datatype per (name, field names, STRUCTURE of the field types); constructor arguments are in sorted
+        # field-name order, so two descriptors that list the same fields in a different order denote the same
+        # sort AND agree on which argument is which field
+        key = _tykey(self)
         if key not in _sort_cache:
             m = f"{_mangle(self.name)}_{len(_sort_cache)}"
             d = z3.Datatype(f"Rec_{m}")
-            d.declare(f"mkrec_{m}", *[(f"{k}_{m}", t.sort()) for k, t in self.fields.items()])
+            d.declare(f"mkrec_{m}", *[(f"{k}_{m}", self.fields[k].sort()) for k in sorted(self.fields)])
             _sort_cache[key] = d.create()
         return _sort_cache[key]
 
@@ -537,13 +576,27 @@ class Rec(Ty):
 
     def wrap(self, term):
         s = self.sort()
-        return VRec(self, {k: t.wrap(s.accessor(0, i)(term)) for i, (k, t) in enumerate(self.fields.items())})
+        pos = {k: i for i, k in enumerate(sorted(self.fields))}
+        return VRec(self, {k: t.wrap(s.accessor(0, pos[k])(term)) for k, t in self.fields.items()})
 
     def pack(self, v):
         if not isinstance(v, VRec):
             raise Unsupported(f"cannot pack {v} as record {self.name}")
         s = self.sort()
-        return s.constructor(0)(*[t.pack(v.fields[k]) for k, t in self.fields.items()])
+        return s.constructor(0)(*[self.fields[k].pack(v.fields[k]) for k in sorted(self.fields)])
+
+
+def _tykey(t):
+    """Structural identity of a type descriptor (two record types of the same name but different fields differ)."""
+    if isinstance(t, Rec):
+        return ("rec", t.name, tuple((k, _tykey(t.fields[k])) for k in sorted(t.fields)))
+    if isinstance(t, Opt):
+        return ("opt", _tykey(t.inner))
+    if isinstance(t, TupleOf):
+        return ("tuple",) + tuple(_tykey(e) for e in t.elems)
+    if isinstance(t, SeqOf):
+        return ("seq", _tykey(t.elem) if t.elem is not None else None)
+    return t.name
 
 
 class Opaque(Ty):
@@ -569,6 +622,19 @@ class Opaque(Ty):
 
 def _mangle(s):
     return "".join(c if c.isalnum() else "_" for c in s)
+
+
+_mangled_used: set = set()
+
+
+def _unique_mangle(s):
+    """Datatype name stem: the plain mangled name the first time, suffixed when two structurally different types
+    print the same (e.g. Opt of two record types that are both called "dict")."""
+    m = _mangle(s)
+    if m in _mangled_used:
+        m = f"{m}_{len(_sort_cache)}"
+    _mangled_used.add(m)
+    return m
 
 
 # ---- dynamically typed values and dicts -------------------------------------------------------
@@ -618,6 +684,8 @@ class _Dict(Ty):
             v = v.val
         if isinstance(v, VAny):
             return ValSort.dv(v.t)
+        if isinstance(v, VRec) and v.ty.as_dict and not getattr(v.ty, "optkeys", False):
+            return recdict_term(v)
         if not isinstance(v, VDict):
             raise Unsupported(f"cannot pack {v} as Dict")
         return v.t
@@ -626,10 +694,20 @@ class _Dict(Ty):
 Any, Dict = _Any(), _Dict()
 
 
+def recdict_term(v):
+    """A dict with constant keys (literal display / kwargs record) as an Array(String -> Val) term."""
+    t = EmptyDict
+    for k, x in v.fields.items():
+        t = z3.Store(t, z3.StringVal(k), to_val(x))
+    return t
+
+
 def to_val(v: V):
     """Inject a typed value into the Val datatype."""
     if isinstance(v, VAny):
         return v.t
+    if isinstance(v, VRec) and v.ty.as_dict and not getattr(v.ty, "optkeys", False):
+        return ValSort.D(recdict_term(v))
     if isinstance(v, VInt):
         return ValSort.I(v.t)
     if isinstance(v, VBool):
@@ -695,7 +773,8 @@ def coerce(v: V, ty: Ty) -> V:
         if isinstance(v, VBool):
             return VInt(z3.If(v.t, z3.IntVal(1), z3.IntVal(0)))
         if isinstance(v, VAny):
-            return VInt(ValSort.iv(v.t))
+            # Python: bool is an int (True == 1, False == 0) wherever a dynamic value is used as a number
+            return VInt(z3.If(ValSort.is_B(v.t), z3.If(ValSort.bv(v.t), z3.IntVal(1), z3.IntVal(0)), ValSort.iv(v.t)))
     elif ty is Bool:
         if isinstance(v, VBool):
             return v
